@@ -24,6 +24,28 @@ CHECKS={
 "C03":("ddsim","5/C03","deterministic simulation: freeze-the-network-and-read soundness oracle at every successful wait_for_acknowledgments, bounded completion after heal incl. reader deletion / participant crash / deletion"),
 "C04":("ddsim","5/C04","deterministic simulation: late joiners at seeded instants vs writes, retained-history model, wait_for_historical_data freeze-and-read, VOLATILE readers judged against reader creation time"),
 "C05":("ddsim","5/C05","deterministic simulation: fragment-size and payload-size sweep with scripted/probabilistic fragment loss, dup and reorder; byte-identity and completion oracle"),
+"C15":("ddsim","5/C15","deterministic simulation: boundary-biased QoS configurations x creation order x SEDP faults; DDS RxO table + partition (fnmatch) model judged from both sides at quiescence; incompatibility reports via listeners"),
+"C16":("ddsim","5/C16","deterministic simulation: histories of remote endpoint create/delete/QoS change, participant crash (lease expiry) and deletion; matched-set model at quiescent points; wire silence towards departed readers"),
+"C17":("ddsim","5/C17","deterministic simulation: SPDP loss, domain id/tag mixes on a shared medium, scripted foreign participants with seeded leases falling silent, ignore_participant; discovery timeline polled every 5 ms against lease windows"),
+"C18":("ddsim","5/C18","deterministic simulation: sequenced reader-cache histories (every change acknowledged before the next op) under network faults, conformance to a DDS reader-cache reference model (KEEP_LAST facet)"),
+"C19":("ddsim","5/C19","deterministic simulation: reader-cache reference model (resource-limit facet) incl. sample-rejected status via listener, writer-side limits checked with a late TRANSIENT_LOCAL reader"),
+"C20":("ddsim","5/C20","deterministic simulation: reader-cache reference model (read/take facet): selection by masks, max_samples prefix rule, grouping, sample/view/instance states, generation counts and ranks"),
+"C21":("ddsim","5/C21","deterministic simulation: BY_SOURCE_TIMESTAMP readers fed with skewed / equal / decreasing timestamps from 1-3 writers; order invariant on every read result"),
+"C22":("ddsim","5/C22","deterministic simulation: 1-3 writers write/dispose/unregister (autodispose on/off) with reads in between; DDS instance life-cycle automaton"),
+"C23":("ddsim","5/C23","deterministic simulation: next-instance walks with masks over instances in mixed read/unread/taken states against the reference model"),
+"C24":("ddsim","5/C24","deterministic simulation: 2-3 writers of different/equal strength, owner unregister / deletion / crash / deadline miss; owner model, two readers must agree"),
+"C25":("ddsim","5/C25","deterministic simulation: time-based filter with source clocks stepping below/at/above minimum_separation and takes in between; pairwise separation invariant + reference model"),
+"C26":("ddsim","5/C26","deterministic simulation: datagram coalescing (several DATA in one RTPS message) plus loss/dup; filtered reader log must equal the control reader's log restricted to the predicate"),
+"C27":("ddsim","5/C27","deterministic simulation: ACKNACK direction partitioned/lossy, reader crash, concurrent writer clients; Ok-written => delivered, Timeout window, late TRANSIENT_LOCAL joiner bounds what the writer holds"),
+"C28":("ddsim","5/C28","deterministic simulation: 1-3 concurrent client tasks on keyed/keyless, enabled/disabled writers; linearizability (Wing-Gong search) against a sequential instance-management model"),
+"C29":("ddsim","5/C29","deterministic simulation: delays, loss-forced repairs and partitions across the expiry instant, late joiners, back-dated timestamps; nothing whose first arrival is after timestamp+lifespan is presented"),
+"C30":("ddsim","5/C30","deterministic simulation: per-instance write timing patterns around the deadline period, varying schedulers/costs; count windows from a deadline model on writer and reader side, one signal per increment"),
+"C31":("ddsim","5/C31","deterministic simulation: deadlines, lifespans, short foreign leases and blocked writes placed on/around multiples of the poke period; every worker timer request <= 50 ms and no wake-up gap"),
+"C32":("ddsim","5/C32","deterministic simulation: waiters racing status raisers, status readers and mask changers under random/PCT schedules; trigger-value model at quiescent points, missed wake-up detection"),
+"C33":("ddsim","5/C33","deterministic simulation: listener x mask configurations on three levels, seven kinds of status events; precedence model: exactly one callback at the most specific enabled level"),
+"C35":("ddsim","5/C35","deterministic simulation: long create/delete histories (beyond 256 entities of a kind) with handle-uniqueness invariant, panic/hang detection"),
+"C36":("ddsim","5/C36","deterministic simulation: concurrent create/delete/operate histories over the entity tree incl. wrong parents and deleted entities; linearizability against an entity-tree model"),
+"C37":("ddsim","5/C37","deterministic simulation: concurrent create/set_qos/get_qos with consistent, inconsistent and immutable changes; linearizability against a QoS model"),
 }
 import os
 claimed=[c for c in CHECKS if os.environ.get('ONLY') is None or c in os.environ['ONLY'].split(',')]
